@@ -32,10 +32,16 @@ for l in open('/verif/properties.jsonl'):
     if want and pid not in want:
         continue
     out, wt = f"/tmp/out_{pid}", f"/tmp/wt_{pid}"
+    # functions that earlier seeded changes for this property already touched (from the hunk headers of those patches)
+    import glob, re as _re
+    already_changed = set()
+    for d_ in glob.glob(f"/verif/seeded/{pid}-*/patch.diff"):
+        for m_ in _re.finditer(r"^@@[^@]*@@.*?(?:def|class) (\w+)", open(d_).read(), _re.M):
+            already_changed.add(m_.group(1))
     os.makedirs(out, exist_ok=True)
     if not os.path.isdir(wt):
         subprocess.run(["git", "-C", "/repo", "worktree", "add", "--detach", "-q", wt, "HEAD"], check=True)
     prop = f"{p['title']}\n\n{p['statement']}\n\nIt must hold for: {p['quantifier']['text']}"
     open(f"{out}/property.txt", "w").write(prop)
-    open(f"{out}/prompt.txt", "w").write(T.format(id=pid, prop=prop, n=N))
+    open(f"{out}/prompt.txt", "w").write(T.format(id=pid, prop=prop, n=N) + (("\n\nEarlier studies already broke the property inside these functions / classes; choose a DIFFERENT function and, if possible, a different clause of the statement: " + ", ".join(sorted(already_changed))) if already_changed else ""))
     print(pid, "ready")
